@@ -126,7 +126,8 @@ def obligations(tier, seed):
                 if kind in ("replace", "replace_range"):
                     q["xs"] = [2, 5, 8]
                 elif kind != "insert" and kind not in ("delete", "delete_range"):
-                    q["xs"] = [0, 5, 7]
+                    nn = len(ops.payloads(common.load(p)).nodes)
+                    q["xs"] = [0, 5, 7, nn - 1]          # nn-1: text carrying two marks
             step = 3 if kind in ("delete", "delete_range", "insert") else (2 if size > 14 else 3)
             if kind in ("delete", "delete_range", "insert"):
                 step = 6
